@@ -30,6 +30,8 @@ type c07case struct {
 	// sibling, when set, is an UNSIGNED member the response carries next to the signed one (name, before / after)
 	sibling       string
 	siblingBefore bool
+	// hdr edits the quote header before the body signature is made (the header is the quote producer's to choose)
+	hdr func(h []byte)
 }
 
 func runC07(r *mc.Run) {
@@ -337,6 +339,32 @@ func runC07(r *mc.Run) {
 			}
 		}
 	}
+	// the QE identity applies whatever the quote's HEADER says: QE vendor id one bit off Intel's / all zero / all ff,
+	// other header SVNs — combined with the baseline and with a selection of mismatching QE reports and identities
+	{
+		var sel []c07case
+		for _, c := range cases {
+			switch c.id {
+			case "baseline", "miscselect/report^bit3", "attributes/report^0.2", "mrsigner/report^31", "isvprodid/report=0x201", "levels/8:OutOfDate", "levels/8:Revoked", "levels/9:UpToDate", "isvsvn/report=0x7":
+				sel = append(sel, c)
+			}
+		}
+		for _, hv := range []struct {
+			name string
+			edit func(h []byte)
+		}{
+			{"vendor-id^bit0", func(h []byte) { h[12] ^= 1 }}, {"vendor-id=zero", func(h []byte) { copy(h[12:28], make([]byte, 16)) }},
+			{"vendor-id=ff", func(h []byte) { copy(h[12:28], bytes.Repeat([]byte{0xff}, 16)) }}, {"header-svns=ffff", func(h []byte) { copy(h[8:12], []byte{0xff, 0xff, 0xff, 0xff}) }},
+			{"user-data=ff", func(h []byte) { copy(h[28:48], bytes.Repeat([]byte{0xff}, 20)) }},
+		} {
+			for _, c := range sel {
+				c2 := c
+				c2.id = "header/" + hv.name + "/" + c.id
+				c2.hdr = hv.edit
+				cases = append(cases, c2)
+			}
+		}
+	}
 	// pairs of single-field deviations (wiring mistakes show up as a verdict that needs both)
 	singles := []c07case{}
 	for _, c := range cases {
@@ -377,6 +405,10 @@ func runC07(r *mc.Run) {
 			c.qe(p.QEReport)
 		}
 		p.SignQE(w.PKI.LeafKey)
+		if c.hdr != nil {
+			c.hdr(p.Header)
+			p.SignBody(world.NewKey("att"))
+		}
 		raw, _ := p.Bytes()
 		e := baseID
 		e.TcbLevels = append([]world.Level(nil), baseID.TcbLevels...)
